@@ -436,6 +436,11 @@ func runCrashCase(r *rep.Reporter, cc crashCase) {
 	r.Distinct(cc.String())
 	trig := cc.mode + "," + cc.point
 	fail := func(anom, what string, extra interface{}) {
+		if strings.Contains(what, "did not announce its port") {
+			// the start-up watchdog fired: a deadline is not a verdict on the store
+			r.Inconclusive(fmt.Sprintf("%s: %s", cc, what))
+			return
+		}
 		r.Violation(sig("C15", cc.kind, anom, trig), fmt.Sprintf("%s: %s", cc, what), extra)
 	}
 	// phase 0: a server without crash injection prepares the bucket
